@@ -76,6 +76,40 @@ def auto_class(bid, sig):
     return "other", "TO REVIEW"
 
 
+def auto_discharged(ctx, lib):
+    """Sites whose justification is re-derived on every run instead of being frozen in the table:
+       grammar-shape -> R-PAIRFLOW visited the unwrap and found the child present on every child sequence;
+       native-arg    -> the site is in the argument-import closure of a Function::new whose names/kinds R-EXPORT checks;
+       lazy-const    -> first-use initialiser of a lazy_static (embedded literal / declaration);
+       lock-poison   -> unwrap of a LockResult (R-LOCK: nothing can panic under a guard)."""
+    from . import pairflowrule
+    from .export import exports
+    try:
+        pf, _ = pairflowrule.make(lib, ctx.facts)
+        for r in pairflowrule.ROOTS:
+            b = lib.body(r)
+            if b is not None:
+                pf.analyse(r, [None] * b.arg_count, [], force=True)
+        pair_ok = {site for site, v in pf.unwrap_sites.items() if v == "ok"}
+    except Exception:
+        pair_ok = set()
+    export_closures = {e["closure"] for e in exports(lib) if e["closure"]}
+    return pair_ok, export_closures
+
+
+def auto_reason(bid, sig, line, pair_ok, export_closures):
+    if ("Option<Pair>" in sig or "Option<&Pair>" in sig) and sig.startswith(("unwrap", "expect")):
+        return "grammar-shape: child present on every child sequence (R-PAIRFLOW)" if (bid, line) in pair_ok else None
+    if bid in export_closures and (sig.startswith("unwrap Option<&variable::Variable>") or
+                                   (sig.startswith("unwrap Result<") and (sig.endswith(", ()>") or sig.endswith("std::convert::Infallible>")))):
+        return "native-arg: generated argument import (R-EXPORT names / kinds agree)"
+    if "__static_ref_initialize" in bid and "{closure" not in bid:
+        return "lazy-const: first-use initialiser of an embedded literal"
+    if "PoisonError" in sig:
+        return "lock-poison: discharged by R-LOCK"
+    return None
+
+
 def run(ctx, scope=None, name="R-PANIC"):
     res = RuleResult(name, "per function, the multiset of panic-capable sites (unwrap/expect, panic!/unreachable!, asserts, indexing) "
                            "equals the reviewed rows of tables/panic_sites.tsv; each row names what discharges it")
@@ -84,17 +118,30 @@ def run(ctx, scope=None, name="R-PANIC"):
     if not res.anchor(bool(table), "tables/panic_sites.tsv"):
         return res
     inv = inventory(lib)
+    pair_ok, export_closures = auto_discharged(ctx, lib)
     total = 0
+    n_auto = 0
     for bid, ss in sorted(inv.items()):
         if scope and not scope(bid):
             continue
+        b = lib.bodies[bid]
+        # sites discharged by an analysis of this very run need no frozen row
+        rest = []
+        for sig, line, exp in ss:
+            why = auto_reason(bid, sig, line, pair_ok, export_closures)
+            if why:
+                n_auto += 1
+                total += 1
+                res.ok("panic:%s|%s" % (bid, sig), b.where(line), why)
+            else:
+                rest.append((sig, line, exp))
+        ss = rest
         cnt = Counter(s for s, _, _ in ss)
         for sig, n in sorted(cnt.items()):
             total += n
             key = "%s|%s" % (bid, sig)
             row = table.get(key)
             lines = [l for s, l, _ in ss if s == sig]
-            b = lib.bodies[bid]
             if row is None:
                 res.bad("panic:" + key, "unreviewed panic-capable site in %s: `%s` (x%d, lines %s) - a new obligation nobody discharges"
                         % (bid, sig, n, lines), b.where(lines[0]))
@@ -109,6 +156,7 @@ def run(ctx, scope=None, name="R-PANIC"):
             else:
                 res.ok("panic:" + key, b.where(lines[0]), "%s x%d: %s" % (cls, n, (row[2] if len(row) > 2 else "")[:120]))
     res.stats["panic_sites"] = total
+    res.stats["discharged_by_analysis"] = n_auto
     if not scope:
         res.floor(total, 300, "panic_sites_total")
     # positive control: a fresh unwrap in the fixture crate is seen by the site extractor
